@@ -16,7 +16,7 @@ func init() {
 			"(R01.2) every unsigned subtraction in FindMajority/FindVoteResult is reached only through an edge asserting subtrahend <= minuend (no wrap-around: the draw test is unsigned arithmetic over a vote sum that may exceed the quorum); " +
 			"(R01.3) the threshold used in the comparisons is the clamp φ(quorum|threshold), quorum being chosen only when threshold > quorum; " +
 			"(R01.4) FindVoteResult counts every vote exactly once under its own key, hands every distinct count to FindMajority together with the given quorum and threshold, maps -1/-2/index to NOT YET/DRAW/MAJORITY and reports as majority key a key whose count is the element FindMajority pointed at; " +
-			"(R01.5) Threshold.VoteResult tallies against its own Threshold(quorum) and the given quorum and set.",
+			"(R01.5) Threshold.VoteResult tallies against its own Threshold(quorum) and the given quorum and set; (R02.*) that required count has an exact ceiling-division shape (the rules of C02).",
 		NotDecided: "that these tests give the right verdict for every (quorum, threshold, multiset) — the arithmetic itself (e.g. a draw formula of a tabled shape with a wrong constant operand order is caught, an altogether different correct formula is reported as an untabled shape); which key is reported when two keys have the same winning count (possible only with more votes than the quorum).",
 		Technique:  "static analysis over go/ssa: must-pass-through gates on the returns of the tally, guard analysis for unsigned subtractions, descriptor match of the accumulators",
 		Run:        runC01,
@@ -175,6 +175,8 @@ func runC01(c *Ctx) {
 			c.Report(fn, "the tally's result and key are handed back unchanged", c.InstrPos(r), ok, "")
 		}
 	}
+	// the required count itself: C02's rules (R02.*) on Threshold.Threshold, which VoteResult tallies against
+	runC02(c)
 }
 
 func isUnsigned(t types.Type) bool {
